@@ -172,7 +172,7 @@ fn main() {
     let full = GenCfg { fully_named: true, comment_chance: (1, 3), ..GenCfg::default() };
     let partial = GenCfg { absent: (1, 10), ..GenCfg::default() };
     let loose = GenCfg { unique_per_namespace: false, fully_named: true, max_classes: 4, ..GenCfg::default() };
-    let n = ctx.tier.pick(12_000, 300_000);
+    let n = ctx.tier.pick(50_000, 300_000);
     run_cases(&ctx, &replay, &mut rep, "reorder", n, |rng, rep, i| {
         let cfg = match i % 7 { 0..=3 => &full, 4 | 5 => &partial, _ => &loose };
         match i % 3 { 0 => case::<2>(rng, rep, cfg), 1 => case::<3>(rng, rep, cfg), _ => case::<4>(rng, rep, cfg) }
